@@ -1,6 +1,8 @@
 package tms20
 
 import (
+	"math"
+
 	"github.com/go-spatial/geom"
 	"github.com/go-spatial/geom/slippy"
 )
@@ -12,6 +14,7 @@ func init() {
 	verifHarnesses["VerifC15BorderSlicesQuick"] = VerifC15BorderSlicesQuick
 	verifHarnesses["VerifC15BorderSlicesThorough"] = VerifC15BorderSlicesThorough
 	verifHarnesses["VerifC15BoundingBox"] = VerifC15BoundingBox
+	verifHarnesses["VerifC15BorderTiles"] = VerifC15BorderTiles
 }
 
 func verifMaxID(tms TileMatrixSet) int {
@@ -102,34 +105,79 @@ func VerifC15SmallMatrices() {
 	verifTileRoundTrip(&tms, id, tx, ty)
 }
 
-// symbolic tile address in a slice of 256 columns x 256 rows at a corner of a large matrix (exact IEEE semantics)
-func verifC15Slices(id int, tms TileMatrixSet) {
+// symbolic tile address along one axis (the other fixed to the first or last row/column) in a slice of `width`
+// columns or rows at the low or high end of a large matrix (exact IEEE-754 semantics)
+func verifC15Slices(id int, tms TileMatrixSet, width uint64) {
 	tm, ok := tms.TileMatrices[id]
-	verifAssume(ok && tm.VariableMatrixWidths == nil && tm.MatrixWidth >= 256 && tm.MatrixHeight >= 256)
-	hiX := verifConcretizeBool(verifNondetBool("highcols"))
-	hiY := verifConcretizeBool(verifNondetBool("highrows"))
-	ox, oy := uint64(0), uint64(0)
-	if hiX {
-		ox = uint64(tm.MatrixWidth) - 256
+	verifAssume(ok && tm.VariableMatrixWidths == nil && uint64(tm.MatrixWidth) >= width && uint64(tm.MatrixHeight) >= width)
+	alongX := verifConcretizeBool(verifNondetBool("alongx"))
+	high := verifConcretizeBool(verifNondetBool("high"))
+	otherHigh := verifConcretizeBool(verifNondetBool("otherhigh"))
+	var tx, ty uint
+	if alongX {
+		o := uint64(0)
+		if high {
+			o = uint64(tm.MatrixWidth) - width
+		}
+		tx = uint(verifNondetUint("t", o, o+width-1))
+		if otherHigh {
+			ty = tm.MatrixHeight - 1
+		}
+	} else {
+		o := uint64(0)
+		if high {
+			o = uint64(tm.MatrixHeight) - width
+		}
+		ty = uint(verifNondetUint("t", o, o+width-1))
+		if otherHigh {
+			tx = tm.MatrixWidth - 1
+		}
 	}
-	if hiY {
-		oy = uint64(tm.MatrixHeight) - 256
+	verifTileRoundTrip(&tms, id, tx, ty)
+}
+
+// border tiles of the larger matrices, addresses case-split (8 lowest / highest columns x first, last row and
+// vice versa): evaluated concretely through the interpreter
+func VerifC15BorderTiles() {
+	_, tms := verifPickSet()
+	id := verifConcretizeInt(int(verifNondetInt("id", 4, int64(verifMaxID(tms)))))
+	tm, ok := tms.TileMatrices[id]
+	verifAssume(ok && tm.VariableMatrixWidths == nil && tm.MatrixWidth > 16 && tm.MatrixHeight > 16)
+	k := uint(verifConcretizeUint(uint(verifNondetUint("k", 0, 7))))
+	alongX := verifConcretizeBool(verifNondetBool("alongx"))
+	high := verifConcretizeBool(verifNondetBool("high"))
+	otherHigh := verifConcretizeBool(verifNondetBool("otherhigh"))
+	var tx, ty uint
+	if alongX {
+		tx = k
+		if high {
+			tx = tm.MatrixWidth - 1 - k
+		}
+		if otherHigh {
+			ty = tm.MatrixHeight - 1
+		}
+	} else {
+		ty = k
+		if high {
+			ty = tm.MatrixHeight - 1 - k
+		}
+		if otherHigh {
+			tx = tm.MatrixWidth - 1
+		}
 	}
-	tx := uint(verifNondetUint("tx", ox, ox+255))
-	ty := uint(verifNondetUint("ty", oy, oy+255))
 	verifTileRoundTrip(&tms, id, tx, ty)
 }
 
 func VerifC15BorderSlicesQuick() {
 	name := []string{"NetherlandsRDNewQuad", "WebMercatorQuad", "WorldCRS84Quad"}[verifConcretizeInt(int(verifNondetInt("set", 0, 2)))]
 	tms := verifTMS(name)
-	verifC15Slices(verifMaxID(tms)/2+2, tms)
+	verifC15Slices(verifMaxID(tms)/2+2, tms, 32)
 }
 
 func VerifC15BorderSlicesThorough() {
 	_, tms := verifPickSet()
 	id := verifConcretizeInt(int(verifNondetInt("id", 0, int64(verifMaxID(tms)))))
-	verifC15Slices(id, tms)
+	verifC15Slices(id, tms, 256)
 }
 
 // O-3: the bounding box spans from the corner of tile (0,0) to the corner of tile (width,height); ToNative rejects beyond.
@@ -148,18 +196,22 @@ func VerifC15BoundingBox() {
 	_, ok3 := tms.ToNative(slippy.NewTile(uint(id), 0, tm.MatrixHeight+1))
 	verifAssert(!ok2 && !ok3, "C15.O3.tonative-rejects-beyond")
 	// tile (0,0)'s corner is the top-left (or, for bottom-left origins, ToNative still returns the top-left corner of the tile)
-	verifAssert(bl[0] == c00[0] && tr[0] == cwh[0], "C15.O3.bbox-x-spans-corner-to-corner")
+	// the two are computed by different (mathematically equal) float formulas: equal up to float resolution
+	verifAssert(verifClose(bl[0], c00[0]) && verifClose(tr[0], cwh[0]), "C15.O3.bbox-x-spans-corner-to-corner")
 	if tm.CornerOfOrigin == BottomLeft {
 		// rows counted upwards: tile (0,0) is the bottom row, its top-left corner is one tile above the bottom
 		sy := float64(tm.TileHeight) * tm.CellSize
 		verifAssert(verifClose(c00[1]-sy, bl[1]) && verifClose(cwh[1]-sy, tr[1]), "C15.O3.bbox-y-spans-corner-to-corner")
 	} else {
-		verifAssert(tr[1] == c00[1] && bl[1] == cwh[1], "C15.O3.bbox-y-spans-corner-to-corner")
+		verifAssert(verifClose(tr[1], c00[1]) && verifClose(bl[1], cwh[1]), "C15.O3.bbox-y-spans-corner-to-corner")
 	}
 	verifAssert(bl[0] < tr[0] && bl[1] < tr[1], "C15.O3.bbox-is-in-x-y-order-and-non-empty")
 }
 
+// verifClose: equal up to the 9-decimal rounding of the API plus 8 ulp of the coordinate magnitude
 func verifClose(a, b float64) bool {
+	m := math.Max(math.Abs(a), math.Abs(b))
+	tol := 2e-9 + 8*(math.Nextafter(m, math.Inf(1))-m)
 	d := a - b
-	return d < 2e-9 && d > -2e-9
+	return d <= tol && d >= -tol
 }
